@@ -123,45 +123,66 @@ fn parse(case: &str) -> Option<Case> {
 fn run_rdr(c: Case) -> String {
     use skim::verif::Reader;
     let trials = *c.reads.first().unwrap_or(&50);
-    let n = *c.reads.get(1).unwrap_or(&40);
+    let n = *c.reads.get(1).unwrap_or(&3);
+    const WATCHERS: usize = 24;
     let (mut stale, mut lost) = (0usize, 0usize);
-    for _ in 0..trials {
+    for trial in 0..trials {
         let (tx, rx) = crossbeam::channel::unbounded::<Arc<dyn SkimItem>>();
         let options = SkimOptionsBuilder::default().build().unwrap();
         let mut reader = Reader::with_options(&options).source(Some(rx));
-        let ctrl = reader.run("");
-        let producer = std::thread::spawn(move || {
-            for i in 0..n {
-                let _ = tx.send(Arc::new(i.to_string()) as Arc<dyn SkimItem>);
-                if i % 7 == 0 {
-                    std::thread::yield_now();
-                }
-            }
-        });
+        let ctrl = Arc::new(reader.run(""));
+        // pollers: like the heart beat, each asks is_done() and, once the answer is yes, looks at what is still buffered
+        let watchers: Vec<_> = (0..WATCHERS)
+            .map(|_| {
+                let ctrl = ctrl.clone();
+                std::thread::spawn(move || {
+                    let deadline = std::time::Instant::now() + Duration::from_secs(10);
+                    loop {
+                        if ctrl.is_done() {
+                            return ctrl.take().len();
+                        }
+                        if std::time::Instant::now() > deadline {
+                            return usize::MAX;
+                        }
+                    }
+                })
+            })
+            .collect();
+        // the source: a short pause, then its last lines, then end of input
+        std::thread::sleep(Duration::from_millis(1 + (trial % 4) as u64));
+        for i in 0..n {
+            let _ = tx.send(Arc::new(i.to_string()) as Arc<dyn SkimItem>);
+        }
+        drop(tx);
+        std::thread::sleep(Duration::from_millis(4));
         let mut got = 0usize;
         let deadline = std::time::Instant::now() + Duration::from_secs(10);
-        loop {
-            if ctrl.is_done() {
-                let rest = ctrl.take();
-                if !rest.is_empty() {
-                    stale += 1;
-                }
-                got += rest.len();
-                break;
-            }
+        while !ctrl.is_done() {
             got += ctrl.take().len();
             if std::time::Instant::now() > deadline {
                 return "error:reader-never-done".into();
             }
         }
-        let _ = producer.join();
-        // anything the reader still delivers after having answered "done"
-        std::thread::sleep(Duration::from_micros(200));
-        got += ctrl.take().len();
+        for w in watchers {
+            match w.join() {
+                Ok(usize::MAX) => return "error:reader-never-done".into(),
+                Ok(left) => {
+                    if left > 0 {
+                        stale += 1;
+                        got += left;
+                    }
+                }
+                Err(_) => return "error:watcher-panicked".into(),
+            }
+        }
+        let rest = ctrl.take().len();
+        if rest > 0 {
+            stale += 1;
+        }
+        got += rest;
         if got != n {
             lost += 1;
         }
-        ctrl.kill();
     }
     format!("stale={} miscounted={}", stale, lost)
 }
